@@ -13,7 +13,7 @@ from consumer import Consumers
 from vlib import Check, ToolError
 
 PROP = "C11"
-POSITIONS = ["field", "alias", "variable", "inputfield", "oneoffield", "enumvalue"]
+POSITIONS = ["field", "alias", "aliascase", "variable", "inputfield", "recinputfield", "oneoffield", "enumvalue"]
 
 
 def snake(n):
@@ -24,6 +24,20 @@ def snake(n):
 
 def camel(n):
     return "".join(p[:1].upper() + p[1:].lower() for p in re.split(r"_+|(?<=[a-z0-9])(?=[A-Z])", n) if p)
+
+
+def respell(n):
+    """the same words in another case style (an alias that only re-spells its field): snake_case for names
+    that are not snake_case, lowerCamelCase / Capitalised otherwise; None if there is no other spelling"""
+    sn = snake(n)
+    if sn and sn != n:
+        return sn
+    parts = [p for p in n.split("_") if p]
+    if len(parts) > 1:
+        return parts[0] + "".join(p[:1].upper() + p[1:] for p in parts[1:])
+    if n[:1].islower():
+        return n[:1].upper() + n[1:]
+    return None
 
 
 def packs(names, keyf):
@@ -55,12 +69,23 @@ def build(names, pos, norm, workdir, tag):
     elif pos == "alias":
         sel = "  o {\n" + "\n".join("    %s: x" % n for n in names) + "\n  }"
         payload = {"o": {n: i for i, n in enumerate(names)}}
+    elif pos == "aliascase":
+        # every field aliased by a re-spelling of its own name: the key on the wire is the alias
+        obj_fields += [{"name": n, "type": tr("Int"), "dep": None} for n in names]
+        sel = "  o {\n" + "\n".join("    %s: %s" % (respell(n), n) for n in names) + "\n  }"
+        payload = {"o": {respell(n): i for i, n in enumerate(names)}}
     elif pos == "variable":
         vars_ = ["$%s: Int" % n for n in names]
         sel = "  x"
         payload = None
     elif pos == "inputfield":
         in_fields = [{"name": n, "type": tr("Int")} for n in names]
+        vars_ = ["$inp: In"]
+        sel = "  x"
+        payload = None
+    elif pos == "recinputfield":
+        # members of a self-referential input object (they are boxed): the wire names stay the GraphQL names
+        in_fields = [{"name": n, "type": tr("In")} for n in names]
         vars_ = ["$inp: In"]
         sel = "  x"
         payload = None
@@ -93,6 +118,8 @@ def build(names, pos, norm, workdir, tag):
         vin = {n: i for i, n in enumerate(names)}
     elif pos == "inputfield":
         vin = {"inp": {n: i for i, n in enumerate(names)}}
+    elif pos == "recinputfield":
+        vin = {"inp": {n: ({m: None for m in names} if i % 2 == 0 else None) for i, n in enumerate(names)}}
     elif pos == "oneoffield":
         vin = [{"one": {n: i}} for i, n in enumerate(names)]     # one assignment per member of the @oneOf input
     elif pos == "enumvalue":
@@ -123,9 +150,13 @@ def main(tier, replay=None, selftest=False):
     for pos in POSITIONS:
         for norm in ("none", "rust"):
             pool = [n for n in names if not (pos == "enumvalue" and n in ("true", "false", "null"))]
+            if pos == "aliascase":
+                pool = [n for n in pool if respell(n) and respell(n) not in ("true", "false", "null")]
             if pos == "enumvalue":
                 esc = lambda n: n + "_" if n in kw else n
                 keyf = (lambda n: esc(camel(esc(n)))) if norm == "rust" else esc
+            elif pos == "aliascase":
+                keyf = lambda n: snake(respell(n))
             elif pos == "oneoffield":
                 keyf = lambda n: n.replace("_", "").lower()      # variant identifiers: anything equal up to case / underscores is kept apart
             else:
@@ -239,7 +270,7 @@ def main(tier, replay=None, selftest=False):
     ck.notes["keywords"] = len(kw)
     ck.assumptions += ["names that collide after the generator's own renaming (e.g. `self` / `Self`, `type` / `Type`) are placed in different modules",
                        "`true`, `false`, `null` are not legal enum value names in GraphQL and are not used as such"]
-    return ck.finish(exhaustive=True, rule="every keyword (52) and naming style of Names!Pool x 6 positions (incl. members of a @oneOf input) x 2 normalizations; distinct = (name, position, normalization)")
+    return ck.finish(exhaustive=True, rule="every keyword (52) and naming style of Names!Pool x 8 positions (incl. aliases that re-spell their field, members of recursive and of @oneOf inputs) x 2 normalizations; distinct = (name, position, normalization)")
 
 
 if __name__ == "__main__":
